@@ -159,6 +159,11 @@ def connectWith (lock : Option Nat) (cd cs : Bool) (d s : Nat) : Stmt :=
   [.probe (.schema d s)] ++
   (match lock with | some n => [.release n] | none => [])
 
+/-- `connect()` without database and schema: nothing is checked or created (`conn.py`: every rung is guarded by
+    `self.database`), only the lock is taken and released -/
+def connectNone (lock : Option Nat) : Stmt :=
+  match lock with | some n => [.acquire n, .release n] | none => []
+
 /-- the default configuration (both flags on); `locked` = under the instance lock (lock 0) of the `fix:` commit -/
 def connectStmt (locked : Bool) (d s : Nat) : Stmt := connectWith (if locked then some 0 else none) true true d s
 
